@@ -266,6 +266,7 @@ func runC04(r *Run) int {
 	if r.Counter("valid_vector_not_decoded") > 0 || r.Counter("score_panicked") > 0 {
 		r.Inconclusive("%d valid vectors were not decoded / %d queries panicked", r.Counter("valid_vector_not_decoded"), r.Counter("score_panicked"))
 	}
+	r.ProcsChildren(1<<30, 1, 3, 7, 14)
 	return r.Finish("all 729 x (100 + absent) = 73,629 v2 vectors, each read by every decoder whose level admits it (base decoder for bare vectors; temporal and environmental decoders for all), observing Base/Temporal scores through accessors and exported embedded fields; oracle = exact rational v2 equations with admissible sets for exact halves; distinct non-trivial = vectors whose base score is not identically 0",
 		true, nontrivial.Load(), 73629*2, 60000, TrustedBase)
 }
@@ -399,6 +400,7 @@ func runC05(r *Run) int {
 		rule += "{temporal group absent, 3 seeded temporal combinations}"
 	}
 	rule += ", decoded by NewEnvironmental().Decode, plus the group-absent relation env == temporal on all 73,629 vectors; oracle = exact rational v2 environmental equations with layered admissible sets (halves either way; negative equation => that tenth or 0); distinct non-trivial = distinct (key, CDP, TD, temporal state) vectors with an environmental group (bitmap)"
+	r.ProcsChildren(3000, 1, 3, 7, 14)
 	return r.Finish(rule, true, distinct.count(), 1000000, 1000000, TrustedBase)
 }
 
